@@ -554,6 +554,12 @@ Section Contract.
   Proof. intro Ht. unfold violation_span. apply violation_walk_ok; [exact Ht|exact (proj1 (locs_ok_head t Ht))]. Qed.
 End Contract.
 
+(* ------------------------------------------------------------------ validateFile's rules against the .proto annotations *)
+Lemma validate_sources_agree : vrule_sources = J5V.gen.WalkSchemaGen.validate_annotations.
+Proof. vm_compute. reflexivity. Qed.
+Lemma validate_rules_cover : forallb vrule_covered J5V.gen.WalkSchemaGen.validate_annotations = true.
+Proof. vm_compute. reflexivity. Qed.
+
 (* ------------------------------------------------------------------ the declarations lie below their nodes *)
 Lemma is_prefix_app2 a x y : is_prefix (a ++ x) ((a ++ x ++ y)) = true.
 Proof. rewrite app_assoc. apply is_prefix_app. Qed.
